@@ -30,7 +30,7 @@ ORDER = {t: i for i, t in enumerate(gr.TYPES)}
 PRIMITIVE = {('sphere', 'sphere'), ('sphere', 'capsule'), ('sphere', 'cylinder'), ('sphere', 'box'), ('capsule', 'capsule'),
              ('capsule', 'box')}
 K_CCD = 4.0          # x ccd_tolerance (absolute, "in units of distance"); worst converged observation 0.93
-K_CCDREL = 1e-6      # x scene scale: iteration caps / stagnation, worst consistent observation 1.4e-8 (see C13)
+K_CCDREL = 1e-5      # x scene scale: iteration caps / stagnation, worst consistent observation 3.2e-6 (see C13)
 K_MEMBER = 1e-4      # x scale (incl. distance from the origin): witness points are barycentric combinations in WORLD coordinates;
                      # worst observed 3e-6*|position| (box-ellipsoid 24 m from the origin: 6.8e-5 outside the box)
 TOUCH_BAND = 30.0    # |distance| <= TOUCH_BAND*ccd_tolerance: known finding, not asserted (arbitrary normal seen at 13x)
